@@ -12,6 +12,7 @@ Fixpoint plus_b (b : branch) : branch :=
   | BGrp cs cap a b' => BGrp cs cap (plus_a a) (plus_b b')
   | BQ cs c QPlus rel b' => BQ (cs ++ [c]) c QStar rel (plus_b b')
   | BQ cs c k rel b' => BQ cs c k rel (plus_b b')
+  | BAn cs eol b' => BAn cs eol (plus_b b')
   end
 with plus_a (a : alt) : alt :=
   match a with
@@ -25,6 +26,7 @@ Fixpoint opt_b (b : branch) : branch :=
   | BGrp cs cap a b' => BGrp cs cap (opt_a a) (opt_b b')
   | BQ cs c QOpt false b' => BGrp cs true (ACons (BEnd [c]) (AOne (BEnd []))) (opt_b b')
   | BQ cs c k rel b' => BQ cs c k rel (opt_b b')
+  | BAn cs eol b' => BAn cs eol (opt_b b')
   end
 with opt_a (a : alt) : alt :=
   match a with
@@ -50,6 +52,7 @@ Proof.
   - intros cs c k rel b IHb H. cbn [ok_b] in H. apply andb_true_iff in H as [H Hb]. apply andb_true_iff in H as [H Hr].
     apply andb_true_iff in H as [Hcs Hc].
     destruct k; cbn [plus_b ok_b]; rewrite ?Hcs, ?Hc, ?Hr, ?(IHb Hb), ?(forallb_app_one cs c Hcs Hc); reflexivity.
+  - intros cs eol b IHb H. cbn [plus_b ok_b] in *. apply andb_true_iff in H as [H Hb]. rewrite H, (IHb Hb). reflexivity.
   - intros b IHb H. exact (IHb H).
   - intros b IHb a IHa H. cbn [plus_a ok_a] in *. apply andb_true_iff in H as [H1 H2]. rewrite (IHb H1), (IHa H2). reflexivity.
 Qed.
@@ -64,6 +67,7 @@ Proof.
   - intros cs c k rel b IHb H. cbn [ok_b] in H. apply andb_true_iff in H as [H Hb]. apply andb_true_iff in H as [H Hr].
     apply andb_true_iff in H as [Hcs Hc].
     destruct k, rel; cbn [opt_b ok_b ok_a forallb orb]; rewrite ?Hcs, ?Hc, ?Hr, ?(IHb Hb); reflexivity.
+  - intros cs eol b IHb H. cbn [opt_b ok_b] in *. apply andb_true_iff in H as [H Hb]. rewrite H, (IHb Hb). reflexivity.
   - intros b IHb H. exact (IHb H).
   - intros b IHb a IHa H. cbn [opt_a ok_a] in *. apply andb_true_iff in H as [H1 H2]. rewrite (IHb H1), (IHa H2). reflexivity.
 Qed.
@@ -156,6 +160,8 @@ Proof.
         exists k1. split; [|exact Hx]. apply (lit_app cs c p k1 Hp). eauto.
     + intros x Hx y. apply IHb. apply in_flat_map in Hx as (k1 & Hk1 & Hx). apply lit_le in Hk1.
       eapply (Dq_le input ci multi); [|exact Hx]. tauto.
+  - intros cs eol b IHb p q Hp. cbn [plus_b Db]. apply flat_map_eqv; [reflexivity|]. intros x Hx y. apply IHb.
+    apply in_flat_map in Hx as (k1 & Hk1 & Hx). apply lit_le in Hk1. eapply (Dan_le input ci multi); [|exact Hx]. tauto.
   - intros b IHb p q Hp. exact (IHb p q Hp).
   - intros b IHb a IHa p q Hp. cbn [plus_a Da]. rewrite !in_app_iff, (IHb p q Hp), (IHa p q Hp). reflexivity.
 Qed.
@@ -180,6 +186,8 @@ Proof.
     + intros x. apply flat_map_eqv; [reflexivity|]. intros k0 Hk0 y. symmetry. apply opt_step. apply lit_le in Hk0. tauto.
     + intros x Hx y. apply IHb. apply in_flat_map in Hx as (k1 & Hk1 & Hx). apply lit_le in Hk1.
       assert (k1 <= n) by tauto. apply in_app_iff in Hx as [Hx|Hx]; apply lit_le in Hx; tauto.
+  - intros cs eol b IHb p q Hp. cbn [opt_b Db]. apply flat_map_eqv; [reflexivity|]. intros x Hx y. apply IHb.
+    apply in_flat_map in Hx as (k1 & Hk1 & Hx). apply lit_le in Hk1. eapply (Dan_le input ci multi); [|exact Hx]. tauto.
   - intros b IHb p q Hp. exact (IHb p q Hp).
   - intros b IHb a IHa p q Hp. cbn [opt_a Da]. rewrite !in_app_iff, (IHb p q Hp), (IHa p q Hp). reflexivity.
 Qed.
